@@ -293,3 +293,12 @@ func (p *Program) SSAFunc(o *types.Func) *ssa.Function {
 	}
 	return p.SSA.FuncValue(o)
 }
+
+// SSAPkg returns the ssa.Package for a short path like "pkg/pdfcpu".
+func (p *Program) SSAPkg(short string) *ssa.Package {
+	pk := p.Pkg(short)
+	if pk == nil || pk.Types == nil {
+		return nil
+	}
+	return p.SSA.Package(pk.Types)
+}
